@@ -513,6 +513,12 @@ func (this *Dataset) getSearchQueryNodes() map[uint64][]uuid.UUID {
 	result := make(map[uint64][]uuid.UUID)
 	for _, partition := range this.partitions {
 		partitionNodeIds := partition.nodeIds()
+		if len(partitionNodeIds) == 0 {
+			// No replica at the moment: planned for node 0, which does not exist,
+			// so that the search fails with an error instead of leaving the partition out
+			result[0] = append(result[0], partition.id)
+			continue
+		}
 		nodeId := partitionNodeIds[rand.Intn(len(partitionNodeIds))]
 		if _, exists := result[nodeId]; !exists {
 			result[nodeId] = make([]uuid.UUID, 0)
